@@ -229,6 +229,9 @@ fn connection_values() -> Vec<(&'static str, Lines)> {
         ("keep-alive ,  Upgrade", Some(vec![b"keep-alive ,  Upgrade"])),
         ("keep-alive,<HT>Upgrade", Some(vec![b"keep-alive,\tUpgrade"])),
         ("two lines", Some(vec![b"keep-alive", b"Upgrade"])),
+        ("Upgrade , keep-alive", Some(vec![b"Upgrade , keep-alive"])),
+        ("Upgrade<HT>, keep-alive", Some(vec![b"Upgrade\t, keep-alive"])),
+        ("keep-alive , Upgrade , x", Some(vec![b"keep-alive , Upgrade , x"])),
         ("upgrades", Some(vec![b"upgrades"])),
         ("x-upgrade", Some(vec![b"x-upgrade"])),
         ("close", Some(vec![b"close"])),
@@ -243,6 +246,8 @@ fn upgrade_values() -> Vec<(&'static str, Lines)> {
         ("h2c, websocket", Some(vec![b"h2c, websocket"])),
         ("websocket, h2c", Some(vec![b"websocket, h2c"])),
         ("two lines", Some(vec![b"h2c", b"websocket"])),
+        ("websocket , h2c", Some(vec![b"websocket , h2c"])),
+        ("h2c ,websocket<HT>, x", Some(vec![b"h2c ,websocket\t, x"])),
         ("websockets", Some(vec![b"websockets"])),
         ("web socket", Some(vec![b"web socket"])),
         ("absent", None),
@@ -574,7 +579,7 @@ fn main() {
     let srvs: Vec<LiveServer<()>> = (0..4).map(|_| LiveServer::start(api(), (), ServerOpts::default()).unwrap_or_else(|e| machinery_failure(&e))).collect();
     par_for(work.len(), 8, ctx.seed, |i| {
         let (c, u, v, k) = work[i];
-        let big = c < 9 && u < 6 && v < 2 && (i % 97 == 0 || (c, u, v) == (0, 0, 0));
+        let big = c < 12 && u < 8 && v < 2 && (i % 97 == 0 || (c, u, v) == (0, 0, 0));
         handshake(&ctx, srvs[i % srvs.len()].addr, c, u, v, k, big, &cn, &samples);
     });
     // ---- segmentation: records that reach the handler in pieces (handlers that read with read /
@@ -684,7 +689,7 @@ fn main() {
         "segmentation_and_tls": segmentation,
         "evaluations": cn.handshakes.load(Ordering::Relaxed),
         "distinct_nontrivial": cn.accepted.load(Ordering::Relaxed),
-        "rule": "handshakes = Connection (13 spellings incl. lists, two header lines, HT after comma, look-alikes, absent) x Upgrade (9) x Sec-WebSocket-Version (6) x key (8: RFC sample, 3 other valid keys, 1-byte, 200-byte, obs-text, absent); quick = every combination that deviates from the canonical handshake in at most 2 dimensions, thorough = the full product (5616). Each on its own connection. Reference predicate: Connection list contains 'upgrade', Upgrade list contains 'websocket' (all lines joined, comma-split, OWS-trimmed, case-insensitive), version exactly 13, key present. Accepted: 101 + Sec-WebSocket-Accept == own SHA-1/base64 digest; then every byte value and (for a fixed sub-grid) payloads of 1..200000 bytes come back unmodified through a raw echo channel. Refused: 400-499 and the connection is not an echo. distinct_nontrivial = handshakes that were upgraded and payload-checked.",
+        "rule": "handshakes = Connection (16 spellings incl. lists, two header lines, HT after comma, look-alikes, absent) x Upgrade (11) x Sec-WebSocket-Version (6) x key (8: RFC sample, 3 other valid keys, 1-byte, 200-byte, obs-text, absent); quick = every combination that deviates from the canonical handshake in at most 2 dimensions, both tiers run the full product (16 x 11 x 6 x 8 = 8448). Each on its own connection. Reference predicate: Connection list contains 'upgrade', Upgrade list contains 'websocket' (all lines joined, comma-split, OWS-trimmed, case-insensitive), version exactly 13, key present. Accepted: 101 + Sec-WebSocket-Accept == own SHA-1/base64 digest; then every byte value and (for a fixed sub-grid) payloads of 1..200000 bytes come back unmodified through a raw echo channel. Refused: 400-499 and the connection is not an echo. distinct_nontrivial = handshakes that were upgraded and payload-checked.",
         "product": [nc, nu, nv, nk], "accepted": cn.accepted.load(Ordering::Relaxed), "refused": cn.refused.load(Ordering::Relaxed),
         "echoed_bytes_verified": cn.echoed_bytes.load(Ordering::Relaxed),
         "exhaustive": true,
